@@ -14,6 +14,10 @@ import vlib
 from vlib import Infra, read_ndjson, write_ndjson, save_replay, tlc_mc, tlc_sim, validate_batch, write_evidence, open_findings, log
 
 ROOT = vlib.ROOT
+# harness files of this module that may not be listed in harness/INTEGRATED yet (vlib compiles INTEGRATED + $VERIF_HARNESS_EXTRA)
+os.environ['VERIF_HARNESS_EXTRA'] = ','.join(sorted(set(x for x in os.environ.get('VERIF_HARNESS_EXTRA', '').split(',') if x) |
+                                                    {f for f in ('replchurn.go', 'replgated.go', 'replsend.go')
+                                                     if os.path.exists(os.path.join(ROOT, 'harness', 'cmd', 'kvh', f))}))
 BAD = ('error',)          # events TLC has no action for at all; hang / noconv are left to TLC (a finding's action may accept them)
 
 # Open findings this module knows how to recognise (proposed entries for known_findings.json; used as they are when the
@@ -144,6 +148,107 @@ def component(ctx, n, rounds):
     return behs
 
 
+# ------------------------------------------------------------------------------- C13 sender-side component check
+def sender_programs(ctx, n_gen):
+    t3 = lambda a, b, c: [{'k': 'k1', 'v': a}, {'k': 'k2', 'v': b}, {'k': 'k3', 'v': c}]
+    s1 = lambda k, v: {'a': 'w', 'op': [{'k': k, 'v': v}]}
+    many = [s1('k%d' % (i % 3 + 1), 'v%d' % (i % 9 + 1)) for i in range(99)]
+    progs = [
+        # the 1 MB volume cut of a catch-up chunk must not fall inside a transaction (400 KB values)
+        ('giant', [s1('k1', 'v1'), {'a': 'w', 'op': t3('v2', 'v3', 'v4')}, s1('k2', 'v5'), {'a': 'att'}]),
+        ('giant', [s1('k1', 'v1'), s1('k2', 'v2'), {'a': 'abn', 'op': t3('v2', 'v3', 'v4')}, {'a': 'ab', 'op': t3('v5', 'v6', 'v7')}, {'a': 'att'},
+                   {'a': 'sleep', 'ms': 150}, {'a': 'w', 'op': t3('v8', 'v9', 'v1')}]),
+        # the 100-entry cut
+        ('ascii', many + [{'a': 'w', 'op': t3('v1', 'v2', 'v3')}, s1('k1', 'TOMB'), {'a': 'att'}]),
+        ('ascii', many[:98] + [{'a': 'ab', 'op': t3('v1', 'v2', 'v3')}] + many[:40] + [{'a': 'att'}]),
+        # pushed batches: over the 256 KB batcher limit, numbered / un-numbered ApplyBatch, rotation in between
+        ('huge', [{'a': 'att'}, {'a': 'sleep', 'ms': 150}, {'a': 'w', 'op': t3('v1', 'v2', 'v3')}, {'a': 'sleep', 'ms': 50}, s1('k1', 'v4'),
+                  {'a': 'abn', 'op': t3('v5', 'TOMB', 'v6')}, {'a': 'ab', 'op': t3('v7', 'v8', 'v9')}, {'a': 'flush'}, s1('k2', 'v1'),
+                  {'a': 'w', 'op': t3('v2', 'v2', 'v2')}]),
+        # detach / re-attach from the applied position with a backlog
+        ('ascii', [s1('k1', 'v1'), {'a': 'att'}, s1('k2', 'v2'), {'a': 'flush'}, s1('k3', 'v3'), {'a': 'det'}, {'a': 'w', 'op': t3('v4', 'v5', 'v6')},
+                   s1('k1', 'v7'), {'a': 'att'}, {'a': 'sleep', 'ms': 120}, {'a': 'abn', 'op': t3('v8', 'v9', 'TOMB')}]),
+    ]
+    rng = random.Random(ctx.seed * 131 + 3)
+    behs = tlc_sim(ctx, 'GEN_ReplSys', 'GEN_ReplSys_restart.cfg', num=max(8, n_gen * 2), depth=700, seed=ctx.seed * 91 + 2, timeout=200, tag='gen-send')
+    behs = [b for b in behs if sum(1 for e in b if e['a'] == 'w') >= 3][:n_gen]
+    for i, b in enumerate(behs):
+        steps = []
+        for st in concretise(b, rng, [None, 0.5, 1.0, 0.25][i % 4]):
+            if st['a'] == 'join':
+                steps.append({'a': 'att'})
+            elif st['a'] == 'rrestart':
+                steps += [{'a': 'det'}, {'a': 'att'}]
+            elif st['a'] == 'sleep':
+                steps.append({'a': 'sleep', 'ms': rng.choice([5, 40, 130])})
+            elif st['a'] != 'cwr':
+                steps.append(st)
+        progs.append((['ascii', 'ascii', 'huge', 'binary', 'giant'][i % 5] if i % 5 != 4 or i % 10 == 4 else 'ascii', steps))
+    return [{'id': i + 1, 'class': c, 'steps': st} for i, (c, st) in enumerate(progs)]
+
+
+def run_sender(ctx, progs, tag):
+    d = ctx.sub('send-' + tag)
+    inp, out = os.path.join(d, 'progs.ndjson'), os.path.join(d, 'trace.ndjson')
+    write_ndjson(inp, progs)
+    p = ctx.run_kvh(['repl-send', '-dir', os.path.join(d, 'db'), '-in', inp, '-out', out, '-seed', str(ctx.seed)], timeout=600, check=False)
+    runs, cur = [], None
+    for e in (read_ndjson(out) if os.path.exists(out) else []):
+        if e['e'] == 'reset':
+            cur = [e]
+            runs.append(cur)
+        elif cur is not None:
+            cur.append(e)
+    if p.returncode != 0 or len(runs) != len(progs):
+        raise Infra(f'sender component harness failed (rc={p.returncode}, {len(runs)} of {len(progs)} programs): {p.stderr[-500:]}')
+    shutil.rmtree(os.path.join(d, 'db'), ignore_errors=True)
+    return runs
+
+
+def sender(ctx, n_gen):
+    progs = sender_programs(ctx, n_gen)
+    parts = [progs[i::4] for i in range(4)]
+    runs = [None] * len(progs)
+    with cf.ThreadPoolExecutor(max_workers=4) as ex:
+        for pi, rs in enumerate(ex.map(lambda a: run_sender(ctx, a[1], f'p{a[0]}'), enumerate(parts))):
+            for j, r in enumerate(rs):
+                runs[pi + 4 * j] = r
+    ctx.traces += len(runs)
+    ctx.evaluations += sum(1 for r in runs for e in r if e['e'] == 'm')
+    msgs = [e for r in runs for e in r if e['e'] == 'm']
+    ctx.notes['sender_component'] = {'programs': len(progs), 'messages': len(msgs), 'multi_batch_messages': sum(1 for e in msgs if len({x['seq'] for x in e['ents']}) > 1),
+                                     'messages_with_same_sequence_batches': sum(1 for e in msgs if len(e['ents']) > len({x['seq'] for x in e['ents']})),
+                                     'refused_as_gap': sum(1 for e in msgs if not e['ok']), 'attachments': sum(1 for r in runs for e in r if e['e'] == 'att')}
+    if not msgs or not any(len(e['ents']) > len({x['seq'] for x in e['ents']}) for e in msgs):
+        raise Infra('vacuous sender component run: no message with a multi-entry batch')
+    for p, r in zip(progs, runs):
+        ctx.nontrivial.add(('send', p['id'], json.dumps([[x['seq'] for x in e['ents']] for e in r if e['e'] == 'm'])))
+    for i in validate_batch(ctx, 'TRACE_ReplSend', 'TRACE_ReplSend.cfg', runs, 'send', bad_events=BAD)[:4]:
+        again = sum(1 for k in range(2) if validate_batch(ctx, 'TRACE_ReplSend', 'TRACE_ReplSend.cfg', run_sender(ctx, [progs[i]], f'repro{i}-{k}'),
+                                                         f'send-repro{i}-{k}', bad_events=BAD))
+        bad = [e for e in runs[i] if e['e'] == 'error']
+        fin = [e for e in runs[i] if e['e'] == 'fin']
+        what = f"sender component, program {progs[i]['id']} ({progs[i]['class']}): " + (
+            bad[0].get('msg', '') if bad else 'the messages put on the stream are not ranges of whole batches of the primary log that hand the replica '
+            f"every entry once, in order (log entries handed over: {fin[0]['n'] if fin else '?'} of {sum(len(e['op']) for e in runs[i] if e['e'] == 'w')}; "
+            f"messages by sequence: {[[x['seq'] for x in e['ents']] for e in runs[i] if e['e'] == 'm'][:8]})")
+        if again:
+            ctx.violations.append({'what': what, 'replay': save_replay(ctx, 'send', {'prog': progs[i], 'trace': runs[i]})})
+        else:
+            ctx.unreproduced.append({'what': what})
+    # binding self-test: a message that ends inside a batch / a final count that is short must be rejected
+    r0 = next(r for r in runs if any(e['e'] == 'm' and e['ok'] and len(e['ents']) > len({x['seq'] for x in e['ents']}) and
+                                     e['ents'][-1]['seq'] == e['ents'][-2]['seq'] for e in r) and r[-1]['e'] == 'fin')
+    r1 = copy.deepcopy(r0)
+    next(e for e in r1 if e['e'] == 'm' and e['ok'] and len(e['ents']) > 1 and e['ents'][-1]['seq'] == e['ents'][-2]['seq'])['ents'].pop()
+    r2 = copy.deepcopy(r0)
+    r2[-1]['n'] -= 1
+    for rr, name in ((r1, 'message that ends inside a batch'), (r2, 'short final count')):
+        if not validate_batch(ctx, 'TRACE_ReplSend', 'TRACE_ReplSend.cfg', [rr], 'send-selftest', bad_events=BAD):
+            raise Infra(f'binding self-test failed: a sender trace with a {name} was accepted')
+    ctx.notes['binding_selftest_sender'] = 'sender traces with a message that ends inside a batch / a short final count are rejected by TLC'
+
+
 # --------------------------------------------------------------------------------------- system scenarios
 SYSCFG = {
     'mid': '{"memtable_size":1048576,"max_memtables":4,"sync_mode":0,"compact_sec":3600}',
@@ -197,7 +302,10 @@ def fixed_scenarios():
     numbered = [{'a': 'join'}, {'a': 'sleep', 'ms': 1500}, {'a': 'abn', 'op': t3('v1', 'v2', 'v3')}, {'a': 'sleep', 'ms': 700},
                 {'a': 'w', 'op': [{'k': 'k1', 'v': 'v4'}]}, {'a': 'abn', 'op': t3('TOMB', 'v5', 'v6')}, {'a': 'sleep', 'ms': 400},
                 {'a': 'ab', 'op': t3('v7', 'v8', 'TOMB')}, {'a': 'w', 'op': t3('v9', 'v1', 'v2')}]
-    return [('pushed-batches-over-256KB', big_push, 'huge', 'mid'), ('pushed-applybatch-numbered-entries', numbered, 'ascii', 'mid'),
+    # catch-up over a backlog whose 1 MB mark falls inside a transaction (100 KB values: 9 singles, then a 3-entry transaction)
+    vol = [{'a': 'w', 'op': [{'k': 'k%d' % (i % 3 + 1), 'v': 'v%d' % (i % 9 + 1)}]} for i in range(9)]
+    vol += [{'a': 'w', 'op': t3('v4', 'v5', 'v6')}, {'a': 'w', 'op': [{'k': 'k1', 'v': 'v7'}]}, {'a': 'join'}]
+    return [('catchup-volume-cut-in-transaction', vol, 'huge', 'mid'), ('pushed-batches-over-256KB', big_push, 'huge', 'mid'), ('pushed-applybatch-numbered-entries', numbered, 'ascii', 'mid'),
             ('chunk-cuts-batch-join-after', many, 'ascii', 'mid'), ('single-after-idle', single_after_idle, 'binary', 'mid'),
             ('pushed-transactions', txn_push, 'ascii', 'mid'), ('flush-between', flush_between, 'ascii', 'mid'),
             ('big-values-join-after', many[60:], 'big', 'bigval')]
@@ -376,14 +484,24 @@ def run_witness(ctx, w, tag):
 
 # ------------------------------------------------------------------------------------------- C15 fault scenarios
 def run_fault(ctx, job, tag):
+    """One fault scenario in its own process: repl-fault (sequential driver + one misbehaving client), repl-churn (full-rate
+    writers + attaching/cutting clients) or repl-gated (a goroutine of the primary parked at a hook site)."""
     d = ctx.sub('fault-' + tag)
     shutil.rmtree(os.path.join(d, 'db'), ignore_errors=True)
     out = os.path.join(d, 'trace.ndjson')
     if os.path.exists(out):
         os.remove(out)
-    args = [ctx.kvh(), 'repl-fault', '-dir', os.path.join(d, 'db'), '-out', out, '-seed', str(ctx.seed), '-mode', job['mode'],
-            '-healthy', str(job.get('healthy', 0)), '-maxmb', str(job.get('maxmb', 64)), '-attach', str(job.get('attach', 30)),
-            '-valkb', str(job.get('valkb', 64))]
+    cmd = job.get('cmd', 'repl-fault')
+    args = [ctx.kvh(), cmd, '-dir', os.path.join(d, 'db'), '-out', out]
+    if cmd == 'repl-fault':
+        args += ['-seed', str(ctx.seed), '-mode', job['mode'], '-healthy', str(job.get('healthy', 0)), '-maxmb', str(job.get('maxmb', 64)),
+                 '-attach', str(job.get('attach', 30)), '-valkb', str(job.get('valkb', 64))]
+    elif cmd == 'repl-churn':
+        args += ['-seed', str(ctx.seed * 10 + job.get('seedoff', 0)), '-healthy', str(job.get('healthy', 0)), '-sync', str(job.get('sync', 0)),
+                 '-rounds', str(job.get('rounds', 12)), '-writers', str(job.get('writers', 4)), '-valb', str(job.get('valb', 200)),
+                 '-pace_us', str(job.get('pace_us', 0))] + (['-head'] if job.get('head') else [])
+    else:
+        args += ['-scenario', job['scenario']]
     try:
         p = subprocess.run(args, capture_output=True, text=True, timeout=job.get('timeout', 170))
         rc, err = p.returncode, p.stderr[-400:]
@@ -393,7 +511,7 @@ def run_fault(ctx, job, tag):
     notes = [e for e in read_ndjson(out) if e['e'] == 'note'] if os.path.exists(out) else []
     if rc != 0:
         ev.append({'e': 'error', 'msg': f'rc={rc} {err}'})
-    elif not any(e['e'] == 'hang' for e in ev):
+    elif not any(e['e'] in ('hang', 'nohook') for e in ev):
         ev.append({'e': 'end'})
     shutil.rmtree(os.path.join(d, 'db'), ignore_errors=True)
     job['_notes'] = notes
@@ -403,8 +521,9 @@ def run_fault(ctx, job, tag):
 def explain_fault(job, ev):
     for e in ev:
         if e['e'] == 'hang':
-            return (f"{job['name']}: primary {e['op']} did not return within {e['waited_ms']} ms (10 x unfaulted latency, >= 5 s) after "
-                    f"{e['bytes_since_fault']} bytes were written with the faulty client attached")
+            return (f"{job['name']}: primary {e['op']} did not return within {e['waited_ms']} ms (10 x unfaulted latency, >= 5 s)" +
+                    (f" after {e['bytes_since_fault']} bytes were written with the faulty client attached" if 'bytes_since_fault' in e else
+                     f" (client {e.get('c')})"))
         if e['e'] == 'topo' and not e['dropped']:
             return f"{job['name']}: the faulty client is still in the topology the primary reports after {e['ms']} ms"
         if e['e'] == 'hconv' and not e['ok']:
@@ -423,6 +542,20 @@ def fault_jobs(ctx):
         {'name': 'never-reads healthy=0', 'mode': 'norecv', 'healthy': 0, 'maxmb': 64},
         {'name': 'never-reads idle-primary healthy=1', 'mode': 'norecv', 'healthy': 1, 'maxmb': 0},
     ]
+    # session churn under full-rate writers (lock structure of the primary), and the two gated windows
+    jobs += [
+        {'name': 'churn writers=4 sync=none', 'cmd': 'repl-churn', 'sync': 0, 'rounds': 12},
+        {'name': 'churn writers=4 sync=immediate', 'cmd': 'repl-churn', 'sync': 2, 'rounds': 12, 'seedoff': 1},
+        {'name': 'gated push-dead-stream', 'cmd': 'repl-gated', 'scenario': 'push-dead-stream'},
+        {'name': 'gated hb-fail', 'cmd': 'repl-gated', 'scenario': 'hb-fail'},
+    ]
+    if not ctx.quick():
+        jobs += [{'name': f'churn paced head seed+{i}', 'cmd': 'repl-churn', 'sync': i % 2 * 2, 'rounds': 20, 'pace_us': 8000, 'head': True,
+                  'seedoff': 10 + i} for i in range(4)]
+        jobs += [{'name': f'churn writers={w} seed+{i}', 'cmd': 'repl-churn', 'sync': i % 2 * 2, 'rounds': 20, 'writers': w, 'seedoff': 20 + i}
+                 for i, w in enumerate((1, 2, 8, 8))]
+        jobs += [{'name': 'churn paced healthy=1', 'cmd': 'repl-churn', 'healthy': 1, 'rounds': 8, 'pace_us': 100000, 'writers': 2,
+                  'seedoff': 30, 'timeout': 400}]
     if not ctx.quick():
         more = []
         for att in (5, 120):
@@ -452,6 +585,7 @@ def check_C13(ctx):
              ('KevoRepl', 'MC_Repl_quick.cfg', 200)],
        negatives=[('KevoRepl', 'MC_Repl_neg_split.cfg', 'NoSplitBatch')])
     component(ctx, 200 if ctx.quick() else 1500, 3 if ctx.quick() else 6)
+    sender(ctx, 14 if ctx.quick() else 120)
     replay_witnesses(ctx, 'C13')
     jobs = sys_jobs(ctx, 3 if ctx.quick() else 35, with_fixed=True, restart=1 if ctx.quick() else 5)
     runs = run_sys_jobs(ctx, jobs, 'c13-')
@@ -466,7 +600,10 @@ def check_C13(ctx):
                    'overlap, loss, duplication, reordering, stray whole-batch messages from any position, reconnects, restarts; logs with '
                    'batches sharing one sequence number) fed to the real WALBatchApplier through the real encoding in three concretisation '
                    'classes and three codecs, with the predicted accepted/gap outcome, applied entry sequence, expected and highest applied '
-                   'number checked after every delivery; (2) system scenarios (real primary + real replica over loopback TCP) whose traces TLC '
+                   'number checked after every delivery; (1b) sender-side component check: the real Primary (push, initial send, catch-up poll, resend) '
+                   'serves a fake stream for TLC-generated programs (singles, transactions, ApplyBatch numbered / un-numbered, rotation, attach / '
+                   'detach, the 100-entry and the 1 MB chunk cuts, batches over the push limit) and TLC validates the recorded messages against '
+                   'TRACE_ReplSend: whole batches only, acceptance rule, the whole log handed over once and in order; (2) system scenarios (real primary + real replica over loopback TCP) whose traces TLC '
                    'validates against TRACE_Repl: every 50 ms sample of the replica is the state after some prefix of the primary history, '
                    'prefix and reported sequence never go back, reported is covered by the applied prefix, and at convergence the replica engine has been handed exactly as many entries as the primary logged (its own sequence counter). distinct_nontrivial = distinct '
                    'schedules + system traces')
@@ -510,8 +647,15 @@ def check_C15(ctx):
         '100 ms per message, TCP reset after 1 MB); it is attached after 30 (thorough: 5/120) unfaulted rounds, next to 0 or 1 healthy real replicas',
         'heartbeat interval / time-out of the primary are configured to 1 s / 3 s for these scenarios; a dropped client must vanish from '
         'GetNodeInfo within time-out + interval + 10 s',
-        'a merely slow or non-acknowledging replica is not required to be dropped']
-    mc(ctx, [('KevoRepl', 'MC_Repl_c15.cfg', 280), ('KevoRepl', 'MC_Repl_two.cfg', 280)])
+        'a merely slow or non-acknowledging replica is not required to be dropped',
+        'churn: 4 writer goroutines at full rate (200-byte values); their operations are counted, not logged one by one - only an operation '
+        'that misses its deadline appears as inv + hang; gated scenarios need the hook sites rp.stream.done / rp.hb.send',
+        'the lock model MC_ReplLocks abstracts sends as non-blocking (blocking sends are the open finding) and has one session']
+    mc(ctx, [('KevoRepl', 'MC_Repl_c15.cfg', 280), ('KevoRepl', 'MC_Repl_two.cfg', 280),
+             ('MC_ReplLocks', 'MC_Repl_locks.cfg', 120), ('MC_ReplLocks', 'MC_Repl_locks_nosync.cfg', 120)],
+       negatives=[('MC_ReplLocks', 'MC_Repl_locks_neg_order.cfg', 'Deadlock reached'),
+                  ('MC_ReplLocks', 'MC_Repl_locks_neg_unreg.cfg', 'Deadlock reached'),
+                  ('MC_ReplLocks', 'MC_Repl_locks_neg_hbleak.cfg', 'Deadlock reached')])
     replay_witnesses(ctx, 'C15')
     jobs = fault_jobs(ctx)
     runs = [None] * len(jobs)
@@ -519,11 +663,24 @@ def check_C15(ctx):
         futs = {ex.submit(run_fault, ctx, j, f'f{i}'): i for i, j in enumerate(jobs)}
         for f in cf.as_completed(futs):
             runs[futs[f]] = f.result()
+    # a gated scenario whose hook site was never reached proves nothing: an error if the tree has the hook, a note otherwise
+    for i in [i for i, r in enumerate(runs) if any(e['e'] == 'nohook' for e in r)][::-1]:
+        site = next(e['site'] for e in runs[i] if e['e'] == 'nohook')
+        src = ''
+        for fn in ('primary.go', 'heartbeat.go'):
+            try:
+                src += open(os.path.join(vlib.REPO, 'pkg', 'replication', fn)).read()
+            except OSError:
+                pass
+        if f'"{site}"' in src:
+            raise Infra(f"gated scenario {jobs[i]['name']}: hook site {site} exists in the tree but was never reached")
+        ctx.notes.setdefault('gated_scenarios_skipped', []).append(f"{jobs[i]['name']}: the tree has no hook site {site}")
+        del runs[i], jobs[i]
     ctx.traces += len(runs)
     ctx.evaluations += sum(len(r) for r in runs)
     for j, r in zip(jobs, runs):
         ctx.nontrivial.add((j['name'], len(r) > 20))
-    ctx.notes['fault_scenarios'] = [{'name': j['name'], 'operations_returned': sum(1 for e in r if e['e'] == 'ret'),
+    ctx.notes['fault_scenarios'] = [{'name': j['name'], 'operations_returned': sum(1 for e in r if e['e'] == 'ret') + sum(e['n'] for e in r if e['e'] == 'ops'),
                                      'outcome': [e for e in r if e['e'] in ('hang', 'topo', 'hconv', 'error')], 'notes': j.get('_notes')}
                                     for j, r in zip(jobs, runs)]
     rejected = validate_batch(ctx, 'TRACE_Repl', 'TRACE_Repl.cfg', runs, 'c15', bad_events=BAD)
@@ -547,7 +704,7 @@ def check_C15(ctx):
             job = {a: b for a, b in jobs[i].items() if not a.startswith('_')}
             ctx.violations.append({'what': what, 'replay': save_replay(ctx, 'fault', {'job': job, 'kind': 'fault', 'trace': runs[i]})})
     # binding self-test: a trace in which an invoke has no return must be rejected
-    ok_runs = [r for i, r in enumerate(runs) if i not in rejected and sum(1 for e in r if e['e'] == 'ret') > 10]
+    ok_runs = [r for i, r in enumerate(runs) if i not in rejected and sum(1 for e in r if e['e'] == 'ret') > 10 and any(e['e'] == 'hconv' for e in r)]
     if not ok_runs:
         raise Infra('vacuous: no fault scenario ran to its end')
     r1 = copy.deepcopy(ok_runs[0])
@@ -568,13 +725,23 @@ def check_C15(ctx):
                    '(never reads / never acknowledges / 100 ms per message / TCP reset) is attached next to 0-1 healthy real replicas, and the '
                    'driver writes until an operation misses its deadline or the byte budget (64 MB) is used; every invoke needs its return, the '
                    'faulty client must leave GetNodeInfo, the healthy replica must equal the primary afterwards; traces validated by TLC against '
-                   'TRACE_Repl. Sampled fault points and sizes, not exhaustive. distinct_nontrivial = fault scenarios run')
+                   'TRACE_Repl. The lock structure of the primary (WAL lock, sessions RW lock with pending-writer blocking, session lock; writer, '
+                   'catch-up, registration, heartbeat) is model-checked in MC_ReplLocks: a started write returns and no deadlock exists for the '
+                   'repaired order; the order before fix 11 and two seeded variants deadlock. Bound by churn scenarios (full-rate writers while '
+                   'clients attach, read, reset or stall-then-reset their connection for 12+ rounds) and two gated scenarios that park the StreamWAL '
+                   'handler before its exit / the heartbeat before its send. Sampled fault points and sizes, not exhaustive. '
+                   'distinct_nontrivial = fault scenarios run')
 
 
 def replay_saved(ctx, payload):
     if 'beh' in payload:
         r = replay_schedules(ctx, [payload['beh']], payload['class'], 'replay')[0]
         return None if r.get('pass') else r
+    if 'prog' in payload:
+        r = run_sender(ctx, [payload['prog']], 'replay')
+        return {'what': 'the messages put on the stream are not whole batches handing over the log once, in order',
+                'messages': [[x['seq'] for x in e['ents']] for e in r[0] if e['e'] == 'm'][:10]} \
+            if validate_batch(ctx, 'TRACE_ReplSend', 'TRACE_ReplSend.cfg', r, 'replay', bad_events=BAD) else None
     if payload.get('kind') == 'fault':
         ev = run_fault(ctx, payload['job'], 'replay')
         if validate_batch(ctx, 'TRACE_Repl', 'TRACE_Repl.cfg', [ev], 'replay', bad_events=BAD):
